@@ -238,6 +238,7 @@ HARNESSES = {
     "file": dict(opt="-O1"),
     "prelude": dict(opt="-O1"),
     "state": dict(opt="-O1"),
+    "dispatch": dict(opt="-O0"),
     "json": dict(opt="-O1", sanitize=True, compiler="clang++-14", flags=["-fno-sanitize=signed-integer-overflow"]),
     "stl": dict(opt="-O1", sanitize=True, compiler="clang++-14"),
 }
